@@ -7,9 +7,10 @@ Driver for C01.  An abstract case is one protocol line
 
   mode   = parse | multi | flat | read | readmulti | readflat | readflatgz
   (also  c01 raw mode text : raw text given to the parser as it is, outside the domain, correspondence only)
-  record = name mol(0-3) topo(0/1) division(0-17) date pads originTrail blockLen perLine extraCuts omit(5 x 0/1: DEF ACC VER KEY SRC)
+  record = name len(digits or empty) mol(text or empty) topo(0 circular/1 linear/2 none) division(text or empty) date(or empty)
+           pads locusTrail originTrail blockLen perLine extraCuts omit(5 x 0/1: DEF ACC VER KEY SRC)
            definition bs accession bs version bs keywords bs source bs organism bs
-           nrefs { range bs authors bs title bs journal bs pubmed bs remark bs }*
+           nrefs { range bs trailGap(0/1) authors bs title bs journal bs pubmed bs remark bs }*
            nextras { key text bs }*
            nfeat { key loc bs nq { key value bs style(0 quoted,1 unquoted,2 no value) }* }*
            seq
@@ -39,14 +40,14 @@ def rep {α : Type} (p : P α) : Nat → P (List α)
   | n + 1 => do let a ← p; let as ← rep p n; return a :: as
 
 def pRef : P (RRef × RefLayout) := do
-  let range ← tokStr; let gb ← tokNats
+  let range ← tokStr; let gb ← tokNats; let trailGap ← tokBool
   let authors ← tokStr; let ab ← tokNats
   let title ← tokStr; let tb ← tokNats
   let journal ← tokStr; let jb ← tokNats
   let pubmed ← tokStr; let pb ← tokNats
   let remark ← tokStr; let rb ← tokNats
   return ({ range, authors, title, journal, pubmed, remark },
-          { range := gb, authors := ab, title := tb, journal := jb, pubmed := pb, remark := rb })
+          { range := gb, trailGap, authors := ab, title := tb, journal := jb, pubmed := pb, remark := rb })
 
 def pQual : P ((Str × Str) × List Nat × Nat) := do
   let k ← tokStr; let v ← tokStr; let b ← tokNats; let st ← tokNat
@@ -58,12 +59,10 @@ def pFeat : P (RFeature × FeatLayout) := do
   let qs ← rep pQual nq
   return ({ key, loc, quals := qs.map (·.1) }, { loc := lb, quals := qs.map (·.2.1), styles := qs.map (·.2.2) })
 
-def molOf : Nat → MolType | 0 => .dna | 1 => .mrna | 2 => .trna | _ => .rrna
-
 def pRec : P (GbRec × RecLayout) := do
-  let name ← tokStr
-  let mol ← tokNat; let topo ← tokNat; let division ← tokNat; let date ← tokStr
-  let pads ← tokNats; let originTrail ← tokBool; let blockLen ← tokNat; let perLine ← tokNat
+  let name ← tokStr; let len ← tokStr
+  let mol ← tokStr; let topo ← tokNat; let division ← tokStr; let date ← tokStr
+  let pads ← tokNats; let locusTrail ← tokNat; let originTrail ← tokBool; let blockLen ← tokNat; let perLine ← tokNat
   let extraCuts ← tokNats; let omitS ← tokStr
   let om (i : Nat) : Bool := omitS.getD i '0' == '1'
   let definition ← tokStr; let db ← tokNats
@@ -79,10 +78,10 @@ def pRec : P (GbRec × RecLayout) := do
   let nf ← tokNat
   let fs ← rep pFeat nf
   let seq ← tokStr
-  return ({ locus := { name, mol := molOf mol, topo := if topo == 0 then .circular else .linear, division, date }
+  return ({ locus := { name, len, mol, topo := if topo == 0 then some .circular else if topo == 1 then some .linear else none, division, date }
             definition, accession, version, keywords, source, organism
             refs := refs.map (·.1), extras := exs.map (·.1), features := fs.map (·.1), seq },
-          { pads, definition := db, accession := ab, version := vb, keywords := kb, source := sb, organism := ob
+          { pads, locusTrail, definition := db, accession := ab, version := vb, keywords := kb, source := sb, organism := ob
             refs := refs.map (·.2), extras := exs.map (·.2), feats := fs.map (·.2)
             originTrail, blockLen, perLine, extraCuts
             omitDefinition := om 0, omitAccession := om 1, omitVersion := om 2, omitKeywords := om 3, omitSource := om 4 })
